@@ -66,6 +66,12 @@ def run_case(case, pname, occ=0):
         except Exception as e:
             problems.append('melt/recast(key=%r) raised %r' % (karg, e))
     try:
+        # melt(variables=[c, b]): variables in the caller's order, key = the remaining field a
+        want = [('a', 'variable', 'value')] + [(prof.conc(r[0], occ), r[1], r[2]) for r in case['meltvars']]
+        eq("melt(variables=['c', 'b'])", rows(etl.melt(t, variables=['c', 'b'])), want)
+    except Exception as e:
+        problems.append('melt(variables in caller order) raised %r' % (e,))
+    try:
         def cgrid(g):
             return [tuple((prof.conc(c, occ) if (g[ri][0] == 'a' and ci > 0) else c) for ci, c in enumerate(r)) for ri, r in enumerate(g)]
         tr = rows(etl.transpose(t))
@@ -149,6 +155,10 @@ def run_unpack_case(case):
             wants = [('id', 'z', 'p', 'q')] + [(i + 1, 51 + i, 'w%d' % v[0], 'w%d' % v[1]) for i, v in enumerate(vals)]
             eq('split', [tuple(r) for r in etl.split(ts, 'v', ' ', ['p', 'q'])], wants)
             eq('capture', [tuple(r) for r in etl.capture(ts, 'v', r'(\w+) (\w+)', ['p', 'q'])], wants)
+        if all(len(v) >= 2 for v in vals):
+            # more pieces than new fields: every piece is still delivered (the row grows), nothing is lumped together
+            wantx = [('id', 'z', 'p', 'q')] + [(i + 1, 51 + i) + tuple('w%d' % x for x in v) for i, v in enumerate(vals)]
+            eq('split(surplus pieces)', [tuple(r) for r in etl.split(ts, 'v', ' ', ['p', 'q'])], wantx)
         if all(len(v) >= 1 for v in vals):
             wantd = [('id', 'v', 'z')] + [(i + 1, 'w%d' % x, 51 + i) for i, v in enumerate(vals) for x in v]
             eq('splitdown', [tuple(r) for r in etl.splitdown(ts, 'v', ' ')], wantd)
@@ -239,7 +249,7 @@ def run(tier, seed):
     r2, v2 = common.validate('ReshapeTrace', bad, name='ReshapeTraceBad')
     ok = v2[1][0] != 0
     chk.binding_demo = {'corrupted': 'one molten row removed', 'verdict': list(v2[1]), 'rejected_as_expected': ok}
-    if not ok:
+    if not ok and not chk.violations:
         raise tlc.MachineryError('binding demo failed')
     chk.exhaustive = True
     chk.assumptions = ['pivot column values / recast variable names are homogeneous (native sorted() is used there), as the design states',
